@@ -104,11 +104,13 @@ static int sched_ip_schedule(parsec_execution_stream_t* es,
         it = (parsec_list_item_t*)((parsec_list_item_t*)it)->list_next;
     } while( it != (parsec_list_item_t*)new_context );
 #endif
-    if( 0 == distance ) {
-        parsec_mca_sched_list_local_counter_chain_sorted(sl, new_context, parsec_execution_context_priority_comparator);
-    } else {
-        parsec_mca_sched_list_local_counter_chain_back(sl, new_context);
-    }
+    /* The list must stay sorted whatever the distance: select pops the back of the
+     * list (lowest priority first), so appending a rescheduled ring at the back
+     * would have it selected before every pending task of lower priority, and
+     * would break the ordering that chain_sorted relies upon. Like the ap
+     * scheduler, ignore the distance. */
+    parsec_mca_sched_list_local_counter_chain_sorted(sl, new_context, parsec_execution_context_priority_comparator);
+    (void)distance;
     return PARSEC_SUCCESS;
 }
 
